@@ -72,7 +72,8 @@ for f in kf['fixed']:
 def keyf(e):
     m = re.match(r'([CD])(\d+)(?:-(\w+))?', e['id'])
     return (m.group(1), int(m.group(2)), m.group(3) or '')
-mrows = ['| change | what it does | reported by |', '|--------|--------------|-------------|']
+fp = json.load(open(V + '/seeded/round2_first_pass.json'))['breaking_first_pass']
+mrows = ['| change | what it does | first pass | reported by (after tuning) |', '|--------|--------------|------------|---------------------------|']
 own = other = missed = 0
 for e in sorted(exps, key=keyf):
     id = e['id']
@@ -89,7 +90,12 @@ for e in sorted(exps, key=keyf):
         own += 1
     else:
         other += 1
-    mrows.append(f"| {id} | {what[:170]} | {' '.join(cb) if cb else '**none**'} |")
+    if id in fp:
+        f1 = fp[id]
+        first = ' '.join(f1['reported_by']) if f1['reported_by'] else ('undecided' if f1['undecided'] else '**missed**')
+    else:
+        first = '–'
+    mrows.append(f"| {id} | {what[:150]} | {first} | {' '.join(cb) if cb else '**none**'} |")
 matrix = '\n'.join(mrows)
 summary = (f"{len(exps)} changes ({sum(1 for e in exps if e['id'] in meta)} seeded, {sum(1 for e in exps if e['id'] not in meta)} regression reverts): "
            f"{own} reported by the targeted property's own check (reverts: by the rule that found the defect), {other} only by another property's check, {missed} not reported.")
